@@ -156,6 +156,19 @@ pub fn run(cfg: &Cfg) -> Report {
             }
         }
     }
+    // branching numbers at representation boundaries on small sets (all renumberings are applied below)
+    for s in gen::connected_sets_upto(2, 4).into_iter().chain(gen::connected_sets_upto(3, 3)) {
+        for _ in 0..cfg.tier.pick(4, 30) {
+            symbols.push(gen::random_branching(&mut rng0, &s, gen::BOUNDARY_VS));
+        }
+    }
+    // large structured sets with few distinct branching numbers (many automorphisms, many tied seeds)
+    for (_, s) in gen::structured_2d_sets().into_iter().chain(gen::structured_3d_sets()) {
+        if s.n <= cfg.tier.pick(130, 400) {
+            symbols.push(gen::random_branching(&mut rng0, &s, &[1, 1, 1, 2]));
+            symbols.push(gen::random_branching(&mut rng0, &s, &[1, 2, 3, 256, 65536]));
+        }
+    }
     // random larger 2D symbols (7-14 chambers) built constructively, branching up to 12
     symbols.extend(gen::random_larger_2d_symbols(seed, cfg.tier.pick(4_000, 60_000), cfg.tier.pick(14, 24), &[1, 1, 2, 2, 3, 3, 4, 5, 6, 12]));
     // plus labelled variants: all renumberings are applied below, but also feed *distinct non-isomorphic*
@@ -234,6 +247,44 @@ pub fn run(cfg: &Cfg) -> Report {
     });
     report.absorb(ctx);
 
+    // beyond 2^16 chambers: a strip whose (1,2)-orbits carry pairwise different branching numbers (so that
+    // every seed is rejected at its first degree and canonicalisation is linear); judged by fixed point,
+    // invariance under renumbering and equality of the degree multiset (a full isomorphism test is quadratic)
+    let ctx = par_range(cfg, cfg.tier.pick(1, 3), |ctx, k| {
+        let mut rng = Rng::stream(seed, 0x03_b000 + k as u64);
+        let n = [65_540usize, 70_000, 131_080][k];
+        let m = gen::strip_2d(n, true);
+        let input = || json!({"symbol": format!("strip_2d({}, distinct branching numbers)", n)});
+        ctx.eval();
+        let c = match ctx.no_panic("derived::canonical", input, lib_canonical(&m, false)) {
+            Some(c) => c,
+            None => return,
+        };
+        let degs = |x: &MSym| { let mut v: Vec<Vec<usize>> = (1..=x.n).map(|d| x.degrees(d)).collect(); v.sort(); v };
+        if !c.is_valid_symbol() || c.n != m.n || degs(&c) != degs(&m) || !c.is_connected() {
+            ctx.violation("canonical-form-not-isomorphic-to-input", "derived::canonical", input(), json!({"size": c.n}), "valid symbol with the same degrees");
+            return;
+        }
+        for which in 0..cfg.tier.pick(1, 2) {
+            let p = if which == 0 { let mut r = vec![0]; r.extend((1..=n).rev()); r } else { rng.perm1(n) };
+            match lib_canonical(&m.renumbered(&p), which == 1) {
+                Ok(cp) => {
+                    if cp != c {
+                        ctx.violation("renumbering-changes-canonical-form", "derived::canonical", input(), json!({"renumbering": if which == 0 { "reversal" } else { "random" }}), "every renumbering yields the same canonical form");
+                        return;
+                    }
+                }
+                Err(pn) => {
+                    ctx.violation(&format!("panic@{}", pn.short_loc()), "derived::canonical", input(), pn.to_json(), "no panic");
+                    return;
+                }
+            }
+        }
+        ctx.count("symbols_beyond_65536_chambers");
+        ctx.nontrivial(digest(&("huge", n)));
+    });
+    report.absorb(ctx);
+
     // larger connected symbols built by the library's own cover machinery, each validated as a
     // genuine symbol by the model before use (self-validating generator)
     let ctx = large_cover_symbols(cfg);
@@ -248,6 +299,7 @@ pub fn run(cfg: &Cfg) -> Report {
     report.require_counter("eq_checked_on_non_isomorphic_pair", 100);
     report.require_counter("eq_checked_on_isomorphic_pair", 100);
     report.require_counter("large_cover_symbols", 5);
+    report.require_counter("symbols_beyond_65536_chambers", 1);
     report
 }
 
